@@ -216,10 +216,11 @@ def run_family(run, exe, prop, configs, parallel=5, workers=3, env=None, cap_tou
                     run.note("oracle of another property fired while exploring %s after a divergence: %s %s: %s" % (name, v[0], v[1], v[5][:160]))
             foreign = sorted({v[0] for v in resx["viols"]} - set(wanted_or) - {"O-crash", "O-harness"})
             if foreign and not hit:
-                # only another property's oracle fired: switch it off and see what the fault does to this property
-                resy = run_harness_env(exe_bin if conf.get("Binary") else exe, ["random", str(nloc), str(seed() + 8), out["init"], REPLAYS], dict(out["env"], VERIF_IGNORE=",".join(foreign)))
-                run.add("evaluations", nloc)
-                run.cov["local_exploration_after_divergence"].append({"config": name, "runs": nloc, "violations": len(resy["viols"]), "ignoring": foreign})
+                # only another property's oracle fired: switch it off and see what the fault does to this property; plain accesses to shared
+                # memory become scheduling points too, since the fault may be a race between plain accesses
+                resy = run_harness_env(exe_bin if conf.get("Binary") else exe, ["random", str(nloc * 10), str(seed() + 8), "plain=1 ignore=%s " % ",".join(foreign) + out["init"], REPLAYS], dict(out["env"], VERIF_IGNORE=",".join(foreign), VERIF_PLAIN="1"))
+                run.add("evaluations", nloc * 10)
+                run.cov["local_exploration_after_divergence"].append({"config": name, "runs": nloc * 10, "violations": len(resy["viols"]), "ignoring": foreign})
                 for v in resy["viols"]:
                     if v[0] in wanted_or:
                         run.violation("%s|%s|explore %s" % (v[0], v[1], name), v[4], v[5])
